@@ -450,3 +450,39 @@ add('C02.twin_helper', 'C02', (MMF, "      for tensor_map in signature_def.outpu
     "      for tensor_map in signature_def.outputs or []:\n        if tensor_map.tensorIndex in replaced_outputs:\n          tensor_map.tensorIndex = replaced_outputs[tensor_map.tensorIndex]"), (), 'membership test + subscript instead of dict.get', kind='twin')
 add('C12.drop_block_size', 'C12', (QT, "    params_copy = copy.deepcopy(params)\n    return cls(**params_copy)", "    params_copy = copy.deepcopy(params)\n    if params_copy.get('granularity', QuantGranularity.TENSORWISE) != QuantGranularity.BLOCKWISE:\n      params_copy.pop('block_size', None)\n    return cls(**params_copy)"),
     'C12.R1', 'from_dict normalises block_size away for non-blockwise configs (seeded b3-C12; MISSED by the first version: the lattice did not vary block_size)')
+
+# ---------------------------------------------------------------------- C19
+add('C19.subgraph0', 'C19', (TP, "            tflite_model.subgraphs[transformation_inst.subgraph_id],\n", "            tflite_model.subgraphs[0],\n"), ('C19.R1', 'C19.R6'), 'every transformation applied to subgraph 0', control=True)
+add('C19.map0', 'C19', (TP, "    np_op_id_map = np.array(self._original_op_id_map[subgraph_id])", "    np_op_id_map = np.array(self._original_op_id_map[0])"), 'C19.R1', 'op-id map of subgraph 0 shifted for every subgraph')
+add('C19.no_reset', 'C19', (TP, "    self._original_op_id_map = []\n    self._added_op_id_map = []\n    self._create_op_id_map(tflite_model)", "    self._create_op_id_map(tflite_model)"), 'C19.R2', 'maps not reset per call')
+add('C19.set_per_subgraph', 'C19', (PG, "    global_tensor_names = set()\n    for subgraph in self.flatbuffer_model.subgraphs:\n", "    for subgraph in self.flatbuffer_model.subgraphs:\n      global_tensor_names = set()\n"), 'C19.R3', 'name uniqueness per subgraph only', control=True)
+add('C19.graphinfo_sub0', 'C19', (PG, "      graph_info = qtyping.GraphInfo(\n          subgraph.tensors, self.flatbuffer_model.buffers\n      )\n      # Add input/output operators to the subgraph.",
+    "      graph_info = qtyping.GraphInfo(\n          self.flatbuffer_model.subgraphs[0].tensors,\n          self.flatbuffer_model.buffers,\n      )\n      # Add input/output operators to the subgraph."),
+    'C19.R5', 'GraphInfo always built from the tensors of subgraph 0')
+add('C19.info_subgraph_id', 'C19', (TIG, "      tensor_info = self.TensorGraphInfo(\n          tensor_id, subgraph_id, producer, consumers\n      )", "      tensor_info = self.TensorGraphInfo(\n          tensor_id, 0, producer, consumers\n      )"),
+    'C19.R1', 'graph info records subgraph 0 for every tensor')
+add('C19.global_output_map', 'C19', (MMF, "    for signature_def in quantized_model.signatureDefs or []:\n      subgraph_id = signature_def.subgraphIndex\n      replaced_outputs = dict(\n          zip(\n              original_outputs[subgraph_id],\n              quantized_model.subgraphs[subgraph_id].outputs,\n          )\n      )\n",
+    "    replaced_outputs = {}\n    for subgraph, outputs in zip(quantized_model.subgraphs, original_outputs):\n      replaced_outputs.update(zip(outputs, subgraph.outputs))\n    for signature_def in quantized_model.signatureDefs or []:\n"),
+    'C19.R7', 'tensor-id keyed table accumulated over all subgraphs (seeded a1-C02)')
+add('C19.opcodes_local', 'C19', (QI, "      schema_py_generated.BuiltinOperator.QUANTIZE,\n      transformation_input.op_codes,", "      schema_py_generated.BuiltinOperator.QUANTIZE,\n      list(transformation_input.op_codes),"),
+    'C19.R6', 'operator code added to a private copy of the table (index out of range in the model)')
+
+# ---------------------------------------------------------------------- C18
+MV = 'model_validator.py'
+add('C18.wrong_family_index', 'C18', (MV, "              targ_tensor_name_to_details[tensor_name],\n              targ_subgraph_index,", "              targ_tensor_name_to_details[tensor_name],\n              ref_subgraph_index,"),
+    'C18.R1', 'target tensor read with the reference subgraph index', control=True)
+add('C18.no_pop', 'C18', (MV, "      output_tensor_results[name] = result.pop(name)", "      output_tensor_results[name] = result[name]"), 'C18.R2', 'outputs copied, not moved: reported twice')
+add('C18.swapped_metric', 'C18', (MV, "              compare_fn(target_data, reference_data)", "              compare_fn(reference_data, target_data)"), 'C18.R3', 'metric arguments swapped (ratio divides by the target)')
+add('C18.peek', 'C18', (MV, "    comparison_results = {}\n    for signature_input in signature_inputs:", "    comparison_results = {}\n    if next(iter(signature_inputs), None) is None:\n      raise ValueError('no test data')\n    for signature_input in signature_inputs:"),
+    'C18.R8', 'peeking at the first sample of a one-shot iterable drops it from the average (seeded b3-C18; MISSED by the first version)')
+add('C18.sum_not_mean', 'C18', (MV, "      agregated_results[tensor_name] = np.mean(comparison_results[tensor_name])", "      agregated_results[tensor_name] = np.sum(comparison_results[tensor_name])"), 'C18.R3', 'sum instead of mean over samples')
+add('C18.mse_abs', 'C18', ('utils/validation_utils.py', "  return float(np.square(np.subtract(data1, data2)).mean())", "  return float(np.abs(np.subtract(data1, data2)).mean())"), 'C18.R7', 'MSE computed as mean absolute error')
+add('C18.ratio_denominator', 'C18', ('utils/validation_utils.py', "  demoninator = abs(data2) + tolerance_threshold", "  demoninator = abs(data1) + tolerance_threshold"), 'C18.R7', 'ratio normalised by the first argument')
+add('C18.no_dequant', 'C18', ('utils/tfl_interpreter_utils.py', "    subgraph_index: int = 0,\n    dequantize: bool = True,\n) -> np.ndarray:", "    subgraph_index: int = 0,\n    dequantize: bool = False,\n) -> np.ndarray:"), 'C18.R6', 'quantized tensors compared as raw integers')
+add('C18.results_across_signatures', 'C18', (MV, "  for signature_key, signature_inputs in test_data.items():\n    comparison_results = {}\n", "  comparison_results = {}\n  for signature_key, signature_inputs in test_data.items():\n"), 'C18.R3', 'per-tensor sample lists shared between signatures')
+add('C18.const_subgraph0', 'C18', (MV, "    for name in utils.get_constant_tensor_names(\n        self._reference_model,\n        subgraph_index,\n    ):", "    for name in utils.get_constant_tensor_names(\n        self._reference_model,\n    ):"),
+    'C18.R2', 'constants taken from subgraph 0 whatever the signature')
+add('C18.twin_names', 'C18', (MV, "          reference_data = utils.get_tensor_data(\n              ref_interpreter, detail, ref_subgraph_index\n          )", "          reference_data = utils.get_tensor_data(\n              ref_interpreter, ref_tensor_name_to_details[tensor_name], ref_subgraph_index\n          )"),
+    (), 'reference detail looked up by name instead of using the loop value', kind='twin')
+add('C09.peek_dataset', 'C09', (CAL, "    for data in calibration_dataset:\n      # Initialize tensor names", "    first = next(iter(calibration_dataset), None)\n    if first is None:\n      return\n    for data in calibration_dataset:\n      # Initialize tensor names"),
+    'C09.R9', 'peeking at a one-shot calibration dataset drops its first sample')
